@@ -15,7 +15,7 @@ RULE = ('case = (content kind in {raw body, urlencoded form, JSON, multipart tex
         'one huge chunk, read fragmentation caps). Oracle from a recording wsgi.input: S > M => 413 and the payload bytes handed out by the stream <= M + B '
         '(chunk framing bytes mapped back to payload offsets); S <= M => raw body accepted and byte-identical; accepted raw body with S > B => Request.body '
         'is a real file (not BytesIO, fileno() works) with identical content; urlencoded / JSON text > B and multipart header+text bytes > B => refused with '
-        'a 4xx and the handler never obtains the value, <= B => delivered exactly; file parts far beyond B are accepted byte-identically. Non-trivial = S '
+        'a 4xx and the handler never obtains the value, <= B => delivered exactly; file parts far beyond B are accepted byte-identically; with the temporary directory made unusable (fault injection) a raw body above B is never accepted from memory. Non-trivial = S '
         'within one buffer of M or of B (or M+B), or the body spilled; distinct by case hash.')
 ASSUMPTIONS = ['wsgi.input may return short reads', 'for chunked framing B >= length of the longest chunk-size line (stated precondition of the scanner)',
                '"refused" = any 4xx (the configured mapping gives 413)']
@@ -55,6 +55,12 @@ def build_body(kind, S, extra):
         per = text_total // nparts
         for i, p in enumerate(parts):
             p['value'] = data_of(per if i else text_total - per * (nparts - 1), i)
+        if extra.get('exact_first') and nparts >= 2:
+            # the running total (header block + text) lands exactly on the threshold at the end of the first part; more text follows
+            h0 = len('Content-Disposition: form-data; name="t0"')
+            if extra['B'] >= h0:
+                parts[0]['value'] = data_of(extra['B'] - h0, 0)
+                parts[1]['value'] = data_of(max(1, S), 1)
         body, truth = encode_multipart('bnd', parts, b'', b'\r\n')
         mem = sum(e - s for k, s, e in truth['sections'] if k == 'headers') + sum(len(p['value']) for p in parts)
         want = {p['name']: p['value'].decode() for p in parts}
@@ -139,6 +145,25 @@ def check_case(ctx, case):
     else:
         stream = FragStream(body + b'#SENTINEL#', case['pattern'])
         env = make_environ('POST', '/u', stream=stream, content_length=total, headers=headers)
+    if case.get('tempdir_broken'):
+        # fault injection: the temporary directory is gone, so a body cannot be moved to disk
+        import tempfile
+        old_tmp = tempfile.tempdir
+        tempfile.tempdir = '/nonexistent-verif-tempdir/x'
+        try:
+            r = call_app(app, env)
+        finally:
+            tempfile.tempdir = old_tmp
+        ctx.count('spool_failure_injected')
+        if r.escaped is not None:
+            raise CheckFailure(f'kind={kind} S={S} B={B}: exception escaped when the temporary file could not be created: {fmt_exc(r.escaped)}')
+        if r.code == 200 and total > B and kind == 'raw' and seen.get('type') == 'BytesIO':
+            raise CheckFailure(f'kind={kind} S={S} body={total}B B={B}: the temporary file could not be created and a body larger than max_memfile_size was kept in memory '
+                               f'({seen.get("type")}, {len(seen.get("value") or b"")} bytes) and accepted')
+        if r.code == 200 and total > B and kind != 'raw':
+            ctx.count('spool_failure_other_kind_accepted')
+        ctx.nontrivial(case)
+        return
     r = call_app(app, env)
     what = f'kind={kind} S={S} body={total}B M={M} B={B} framing={"chunked " + str(case["chunks"][:4]) if layout else "length"}'
     if r.escaped is not None:
@@ -240,8 +265,10 @@ def case_st(draw):
     elif kind.startswith('mp_') and M is not None:
         # multipart bodies carry ~100 bytes of framing: move M along so that the edges are still hit
         M = M + draw(st.sampled_from([0, 60, 101, 120]))
-    case = {'kind': kind, 'S': S, 'M': M, 'B': B, 'nparts': draw(st.integers(1, 2)),
+    case = {'kind': kind, 'S': S, 'M': M, 'B': B, 'nparts': draw(st.integers(1, 3)), 'exact_first': draw(st.integers(0, 3)) == 0,
             'chunks': None, 'pattern': draw(st.one_of(st.just([]), st.lists(st.integers(1, 9), min_size=1, max_size=5), st.lists(st.integers(1, 300), min_size=1, max_size=5)))}
+    if kind == 'raw' and draw(st.integers(0, 9)) == 0:
+        case['tempdir_broken'] = True
     if chunked:
         case['cl_with_chunked'] = draw(st.sampled_from([None, None, 'zero', 'total', 'limit', 'small']))
         case['chunks'] = draw(st.one_of(st.just([1]), st.just([3]), st.just([B]), st.just([B + 1, 2 * B + 3]), st.just([100000]), st.just([1, 100000]),
@@ -268,6 +295,15 @@ def run(ctx):
                             if chunks is not None and kind == 'raw':
                                 for cl in ('zero', 'limit', 'small'):
                                     ctx.guarded(check_case, {'kind': kind, 'S': S, 'M': M, 'B': B, 'nparts': 1, 'chunks': chunks, 'pattern': [], 'cl_with_chunked': cl})
+        for S in (9, 65, 300):
+            for chunks in (None, [7]):
+                ctx.guarded(check_case, {'kind': 'raw', 'S': S, 'M': None, 'B': 8, 'nparts': 1, 'chunks': chunks, 'pattern': [], 'tempdir_broken': True})
+                ctx.guarded(check_case, {'kind': 'raw', 'S': S, 'M': 1000, 'B': 64, 'nparts': 1, 'chunks': chunks, 'pattern': [3], 'tempdir_broken': True})
+        for B in (64, 100, 256):
+            for S in (1, 5, B, 5 * B):
+                for chunks in (None, [33]):
+                    for np_ in (2, 3):
+                        ctx.guarded(check_case, {'kind': 'mp_text', 'S': S, 'M': None, 'B': B, 'nparts': np_, 'chunks': chunks, 'pattern': [], 'exact_first': True})
         ctx.count('limit_grid')
     n = 2500 if ctx.tier == 'quick' else 25000
     ctx.hyp(case_st(), check_case, n)
